@@ -335,9 +335,9 @@ struct Lsm {
     alloc_track().poison_free = 0xDD;  // environment answer: what a freed block holds afterwards
     alloc_track().recycle = 1;         // environment answer: a freed block is handed out again to the next request of the same size
     lsm_pending_fault().clear();
-    if (sigsetjmp(t.jb, 1) == 0) { out = op.run(); t.armed = 0; alloc_track().poison = -1; alloc_track().poison_free = -1; if (protect) lsm_protect(false); }
+    if (sigsetjmp(t.jb, 1) == 0) { out = op.run(); t.armed = 0; alloc_track().poison = -1; alloc_track().poison_free = -1; alloc_track().recycle = 0; if (protect) lsm_protect(false); }
     else {
-      alloc_track().poison = -1; alloc_track().poison_free = -1;
+      alloc_track().poison = -1; alloc_track().poison_free = -1; alloc_track().recycle = 0;
       if (protect) lsm_protect(false);
       report(LSM_IMM, id, sfmt("the call writes shared storage that must be immutable at this point: %s (%s)", lsm_where(t.addr).c_str(),
                                !protect ? "a module / table object created earlier" : op.warm_key.empty() ? "module / table operation" : op.tls_cached ? "its cache is thread-local" : "the function was already warmed up for this dimension"));
